@@ -321,11 +321,15 @@ PROPS["C13"] = dict(
           "lock-step model; distinct = hash of the operation trace"),
     runs=[
         dict(name="asan-hsw", src="mutation_harness.cpp", cfg="asan-hsw", env=ASAN_ENV, args=["--prop", "C13"]),
+        # ParseSchema histories (valid texts, 1..4 applications, Swap/move hand-over, destruction) on the ledger allocator
+        dict(name="schema-ledger", src="schema_harness.cpp", cfg="asan-hsw", env=ASAN_ENV,
+             args=["--prop", "C13", "--streams", "kind_matrix_ledger,generated_pairs_ledger"]),
     ],
     require=["operations-checked", "op:document-move", "op:document-swap", "op:Parse(valid)", "op:Parse(invalid)", "op:ParseOnDemand",
-             "copy-independence-checks", "ledger-quiescent-checks", "destruction-at-random-step", "op:CreateMap", "op:CopyFrom"],
+             "copy-independence-checks", "ledger-quiescent-checks", "destruction-at-random-step", "op:CreateMap", "op:CopyFrom",
+             "handover(Swap/move)-then-destroy-former-holder", "repeated-applications(2..4 texts)"],
     assumptions=["the ledger sees allocator traffic only; the parser's node stack and write buffers use malloc directly and are covered by ASan/LSan",
-                 "ParseSchema histories are exercised by the C19 check (ledger + ASan there)"],
+                 "ParseSchema histories run in the schema harness (second run spec) with only the memory oracles reporting; merge semantics are C19"],
 )
 
 # ------------------------------------------------------------------------------------------------ C18
@@ -357,12 +361,14 @@ PROPS["C19"] = dict(
           "shuffled order with values of any kind, omitted keys, undeclared keys with container values that the scanner must skip, "
           "nesting to depth 4) with 1..4 texts applied in sequence; documents built by Parse or through the mutation API; pool and "
           "ledger allocators. Oracle: result read through the accessor API == the merge defined by the statement, no parse error, "
-          "Dump() re-reads to the same value; ASan; ledger (bad free; nothing live after destruction); distinct = hash(existing, texts)"),
+          "Dump() re-reads to the same value; a third of the documents are then handed over by Swap or move, the former holder destroyed and "
+          "the survivor re-read; ASan; ledger (bad free; nothing live after destruction); distinct = hash(existing, texts)"),
     runs=[
         dict(name="asan-hsw", src="schema_harness.cpp", cfg="asan-hsw", env=ASAN_ENV),
         dict(name="asan-wsm", src="schema_harness.cpp", cfg="asan-wsm", env=ASAN_ENV, tiers=("thorough",)),
     ],
     require=["(existing,text)-applications", "texts-with-undeclared-container-valued-keys", "repeated-applications(2..4 texts)", "allocator:pool",
-             "allocator:ledger", "shape:text-array-containing-object-onto-existing-object", "shape:merge-depth>=3", "ledger-quiescent-checks"],
+             "allocator:ledger", "shape:text-array-containing-object-onto-existing-object", "shape:merge-depth>=3", "ledger-quiescent-checks",
+             "handover(Swap/move)-then-destroy-former-holder"],
     assumptions=["merge model written from the property statement; at the root an empty object text leaves a non-empty object unchanged (keys the text omits)"],
 )
